@@ -172,6 +172,20 @@ func (s *Scenario) nearShortBend(k int) bool {
 	return false
 }
 
+// startXTie: after the embedding another vertex has the same x as the start point up to rounding (the situation in which
+// Path.CCW's search for the right-most point ends on the Close command).
+func (s *Scenario) startXTie() bool {
+	x0, _ := s.Emb.Map(float64(s.Pts[0][0]), float64(s.Pts[0][1]))
+	scale := math.Sqrt(math.Abs(s.Emb.Det()))
+	for _, v := range s.Pts[1:] {
+		x, _ := s.Emb.Map(float64(v[0]), float64(v[1]))
+		if v != s.Pts[0] && math.Abs(x-x0) <= 1e-9*scale {
+			return true
+		}
+	}
+	return false
+}
+
 func (s *Scenario) tag() string {
 	t := "open"
 	if s.Closed {
@@ -202,6 +216,22 @@ func exec(s *Scenario, guard bool) (ms []core.Mismatch, onlys []string) {
 	}
 	scale := math.Sqrt(math.Abs(s.Emb.Det()))
 	hw := float64(s.HW) / float64(s.H.S) * scale
+	// Stroke and Offset choose the settling rule by Path.CCW(): on a simple closed contour it must agree with the exact
+	// sign of the area the specification computed. A wrong answer is reported as the root cause (its consequences for
+	// the outline are not reported separately).
+	if s.Closed && !s.F["selfint"] && !s.F["zeroarea"] {
+		want := s.F["ccw"] != (s.Emb.Det() < 0)
+		var got bool
+		if ok, m := latgeo.Try(func() { got = build(s).CCW() }); !ok {
+			return []core.Mismatch{{Signature: "panic-ccw:" + latgeo.PanicClass(m), Detail: fmt.Sprintf("%s emb=%s: CCW() panics: %v", s.svg(), s.Emb.Name, m)}}, []string{""}
+		} else if got != want {
+			sig := "wrong-ccw"
+			if s.startXTie() {
+				sig += "+start-x-tie"
+			}
+			return []core.Mismatch{{Signature: sig, Detail: fmt.Sprintf("%s emb=%s: simple closed contour with exact signed area*2 of sign ccw=%v, Path.CCW() = %v (path %s)", s.svg(), s.Emb.Name, want, got, p)}}, []string{""}
+		}
+	}
 	pts := make([]oracle.Pt, len(s.Facts))
 	for k := range pts {
 		pts[k] = s.samplePt(k)
@@ -265,6 +295,8 @@ func exec(s *Scenario, guard bool) (ms []core.Mismatch, onlys []string) {
 				sig = "in-uncovered+closed-selfintersecting"
 			case s.What == "stroke" && s.F["shortbend"] && nearShort:
 				sig = "in-uncovered+shortbend:near-vertex"
+			case s.What == "stroke" && !s.Closed && s.F["retrace"]:
+				sig = "in-uncovered+open-retrace"
 			}
 			ms = append(ms, core.Mismatch{Signature: sig, Detail: fmt.Sprintf("%s: %d samples that must be covered are not, e.g. lattice point %s (facts %d); result=%s", where, nin, lat(firstIn), s.Facts[firstIn], trunc(r.String(), 300))})
 		}
